@@ -1,6 +1,6 @@
 """C16 - the catalogue stays well-formed: disjoint groups, unique ids, valid references.
 Mode A: TLC exhaustively checks specs/MetaCatalog.tla (design, Dev = {}) for GroupsDisjointAlignedSorted,
-IdsUnique, IdsNeverReused, RefsValid, DefaultPolicyExists, FailedCommandIsNoop, NoPanic over two bounded
+IdsUnique, IdsNeverReused, VersionsNeverReused, RefsValid, DefaultPolicyExists, FailedCommandIsNoop, NoPanic over two bounded
 command alphabets (policies / shard groups; databases / measurements / users).
 Mode B: TLC-generated behaviours are replayed into the real meta.Data; after every command the return
 class and the projected catalogue must equal the specification's, and the same invariants are evaluated on
@@ -13,7 +13,8 @@ ASSUMPTIONS = [
     "TLC bounds as in the cfg files named under coverage.tlc",
     "real meta.Data driven in process through the exported apply functions of apply_func_base.go (the three handlers that live in "
     "store_fsm.go are mirrored in the harness; the real storeFSM is driven too when the tree carries the verif hook VerifFSM)",
-    "one partition per data node (PtNumPerNode = 1), HASH sharding, write-available-first HA policy, node-hard replica distribution, "
+    "one or two partitions per data node (replication only with one), HASH and RANGE sharding without re-sharding, "
+    "write-available-first HA policy, node-hard replica distribution, "
     "expand-shards off, retention-autocreate off; schema-clean-enable explored with both values",
     "CreateDatabase is offered only after CreateDbPtView with the same replica number (handlers_process.createDatabase)",
     "4 ticks of the specification = 1 hour; tick 0 is a multiple of 12 hours drawn from the seed; far future / far past = "
@@ -32,4 +33,6 @@ def replay(path, seed):
 
 
 def selftest(seed):
-    return mc.selftest(PROP, mc.SEEDS_C16, "MetaCatalog.exh.quick.cfg", extra_ops=("MarkMeasurementDelete",))
+    rc = mc.selftest(PROP, mc.SEEDS_C16, "MetaCatalog.exh.quick.cfg", extra_ops=("MarkMeasurementDelete",))
+    rc = mc.selftest(PROP, mc.SEEDS_C16_DEEP, "MetaCatalog.exh.quick.cfg", Depth="9", PpnChoices="{1}", Hosts='{"h1"}', RPs='{"r1"}') or rc
+    return mc.selftest(PROP, mc.SEEDS_C16_LIFE, "MetaCatalog.exh.admin.quick.cfg") or rc
